@@ -764,3 +764,30 @@ class Sweep:
                             break
                         self.do(cls, v, rng.choice(irrelevant), o)
         self.flush()
+
+
+# ---------------------------------------------------------------------------------------------
+# change-directed budget (DESIGN 3.3): source fingerprints of the transformation classes
+def fingerprint(cls):
+    """hash of the source of every psyclone class in the MRO of a transformation"""
+    import hashlib
+    hsh = hashlib.sha1()
+    for c in cls.__mro__:
+        if not c.__module__.startswith("psyclone."):
+            continue
+        try:
+            hsh.update(inspect.getsource(c).encode())
+        except (OSError, TypeError):
+            hsh.update(c.__name__.encode())
+    return hsh.hexdigest()[:16]
+
+
+def changed_classes():
+    """transformation classes whose source differs from the recorded fingerprints (never reported by
+    itself; such classes are swept first, unpruned, with every option)"""
+    try:
+        from props import c26_fingerprints
+    except ImportError:
+        return []
+    ref = c26_fingerprints.FINGERPRINTS
+    return [c for c in all_transformations() if ref.get(c.__name__) != fingerprint(c)]
